@@ -81,6 +81,9 @@ func TestMain(m *testing.M) {
 		if rp.Phase == "no_registry" {
 			ev.RunReplay(rp, runNoRegistry)
 		}
+		if rp.Phase == "stop_with_slow_consumer" {
+			ev.RunReplay(rp, runSlowStop)
+		}
 		if rp.Phase == "link_local" {
 			ev.RunReplay(rp, runLinkLocal)
 		}
@@ -1206,6 +1209,20 @@ func TestC12(t *testing.T) {
 			rec.Case(ev.Hash([]any{"link_local", proto}), true, "client_over_link_local_address")
 			if f != nil {
 				rec.Violation("link_local", proto, f.Msg)
+				t.Fatalf("%s", f.Msg)
+			}
+		}
+	}
+	if ev.Shard() <= 1 {
+		cs := []SlowStop{{Conns: 6, PerConn: 4, ConsumerMs: 200}}
+		if rec.Thorough() {
+			cs = append(cs, SlowStop{Conns: 3, PerConn: 30, ConsumerMs: 150}, SlowStop{Conns: 12, PerConn: 2, ConsumerMs: 1000})
+		}
+		for _, c := range cs {
+			f := runSlowStop(c)
+			rec.Case(ev.Hash([]any{"stop_with_slow_consumer", c}), true, "stop_with_slow_consumer")
+			if f != nil {
+				rec.Violation("stop_with_slow_consumer", c, f.Msg)
 				t.Fatalf("%s", f.Msg)
 			}
 		}
